@@ -442,6 +442,52 @@ func h3eGenSpec(r *u.Rng, id int, thorough bool) *h3eSpec {
 	return s
 }
 
+// h3eFixedGzipSpecs: responses that are a gzip representation -- one member or several
+// concatenated members (RFC 1952 2.2: a gzip file is a series of members) -- with declared and
+// undeclared trailers behind the body, for GET (transparently decoded when the transport asked
+// for gzip itself) and HEAD.
+func h3eFixedGzipSpecs(id *int) []*h3eSpec {
+	gz := func(b []byte) []byte {
+		var zb bytes.Buffer
+		zw := gzip.NewWriter(&zb)
+		zw.Write(b)
+		zw.Close()
+		return zb.Bytes()
+	}
+	pat := func(n int, seed byte) []byte {
+		b := make([]byte, n)
+		for i := range b {
+			b[i] = byte(i*7) ^ seed
+		}
+		return b
+	}
+	var out []*h3eSpec
+	for _, method := range []string{"GET", "HEAD"} {
+		for _, members := range []int{1, 2, 3} {
+			for _, size := range []int{1, 700, 40000} {
+				for _, trailers := range []int{0, 1, 2} {
+					*id++
+					s := &h3eSpec{id: *id, method: method, status: 200, gzip: true, respDeclCL: members == 1 && trailers == 0,
+						respHdr: [][2]string{{"Content-Type", "application/x-verif"}, {"Vary", "Accept-Encoding"}}}
+					for m := 0; m < members; m++ {
+						part := pat(size, byte(m+1))
+						s.respBody = append(s.respBody, part...)
+						s.respGz = append(s.respGz, gz(part)...)
+					}
+					if trailers >= 1 {
+						s.respTrDecl = [][2]string{{"X-T1", "after-the-gzip-body"}}
+					}
+					if trailers == 2 {
+						s.respTrUndecl = [][2]string{{"X-Tu", "undeclared"}}
+					}
+					out = append(out, s)
+				}
+			}
+		}
+	}
+	return out
+}
+
 // regz (re)computes the compressed representation after the body was set or cut.
 func (s *h3eSpec) regz() {
 	if !s.gzip {
@@ -1450,10 +1496,24 @@ func h3eChild(w *bufio.Writer, seed uint64, n int) {
 	port := udp.LocalAddr().(*net.UDPAddr).Port
 	addr := fmt.Sprintf("localhost:%d", port)
 
-	// A. generated exchanges, in batches of 1..8 concurrent requests per connection
-	nEx := n
+	// A0. fixed table (every seed): transparent gzip x trailers x multi-member gzip x body sizes,
+	// and the same representations with compression disabled / for HEAD.
 	id := 0
 	dist := map[string]int{}
+	for _, dc := range []bool{false, true} {
+		tr := &http3.Transport{TLSClientConfig: ctls.Clone(), Logger: nil, DisableCompression: dc}
+		for _, s := range h3eFixedGzipSpecs(&id) {
+			wd.mu.Lock()
+			wd.specs[s.id] = s
+			wd.mu.Unlock()
+			wd.line("SCENARIO\tfixed gzip table disableCompression=%v %s", dc, s)
+			wd.exchange(tr, "https://"+addr, s, false)
+			dist["fixed-gzip-table"]++
+		}
+		tr.Close()
+	}
+	// A. generated exchanges, in batches of 1..8 concurrent requests per connection
+	nEx := n
 	for nEx > 0 {
 		lossy := r.Chance(1, 5)
 		base := "https://" + addr
